@@ -51,22 +51,27 @@ let rec first_decided = function
 
 let bits_of b p = iceil (Zar.to_float p *. log2f (Zar.to_float b)) + 2
 
-let check_value op b p s e a2 a3 rs re fexact : verdict =
+(* for every margin: the strict decision (the property) and the loose one (as-is accuracy of the
+   directed modes, finding directed_faithful), with the same working precisions *)
+let attempts op b p s e a2 a3 rs re fexact : ((unit -> verdict) * (unit -> verdict)) list =
   let bits = bits_of b p in
-  let lr = if Zar.sign rs = 0 then 0.0 else alog2 b rs re in
   let rbits = nb rs + 8 in
   match op with
   | "exp" | "exp_m1" ->
       let lx = alog2 b s e in
       let m1 = (op = "exp_m1") in
-      let attempt mg () =
+      let attempt mg =
         let tiny = lx < -. float_of_int (bits + 24) in
+        (* exp_m1 of a moderately negative x: exp x = 2^(x / ln 2) must be resolved next to -1 *)
+        let cancel = if m1 && Zar.sign s < 0 && lx > 0.0 && lx < 12.0 then iceil (1.45 *. (2.0 ** lx)) else 0 in
         let prt =
           if tiny then 40
-          else bits + mg + iceil (abs_float lx) + 8 in
-        let pra = max prt (bits + mg) + rbits + nb s + 2 * iceil (max 0.0 (-. lx)) + 64 in
-        (if m1 then check_expm1 else check_exp) (pos_of prt) (pos_of pra) b p s e rs re fexact in
-      first_decided (List.map attempt margins)
+          else bits + mg + iceil (abs_float lx) + cancel + 8 in
+        (* exp of a tiny x: 1 + x must be resolved; exp_m1 works relative to x (x^2 against x) *)
+        let pra = max prt (bits + mg) + rbits + nb s + iceil (max 0.0 (-. lx)) + 64 in
+        ((fun () -> (if m1 then check_expm1 else check_exp) (pos_of prt) (pos_of pra) b p s e rs re fexact),
+         (fun () -> (if m1 then loose_expm1 else loose_exp) (pos_of prt) (pos_of pra) b p s e rs re)) in
+      List.map attempt margins
   | "ln" | "ln_1p" ->
       let one_plus = (op = "ln_1p") in
       let lx = alog2 b s e in
@@ -88,45 +93,52 @@ let check_value op b p s e a2 a3 rs re fexact : verdict =
                  if Zar.sign d = 0 then 0.0 else float_of_int (nb d) -. float_of_int (nb n1))
         else
           let v = aln b s e in if v = 0.0 then 0.0 else log2f (abs_float v) in
-      let attempt (mg, from_result) () =
+      let attempt (mg, from_result) =
         let tiny = one_plus && lx < -. float_of_int (bits + 24) in
         if tiny then
-          let pra = bits + mg + rbits + nb s + 2 * iceil (-. lx) + 64 in
-          check_ln1p (pos_of 40) (pos_of pra) (zi 10) true [] b p s e rs re fexact
+          let pra = bits + mg + rbits + nb s + iceil (-. lx) + 64 in
+          ((fun () -> check_ln1p (pos_of 40) (pos_of pra) (zi 10) true [] b p s e rs re fexact),
+           (fun () -> loose_ln1p (pos_of 40) (pos_of pra) (zi 10) [] b p s e rs re))
         else
           let slack = bits + mg + iceil (max 0.0 (-. lt)) + 8 in
-          let prt = slack + 40 + iceil (max 0.0 lt) + (if one_plus then 0 else 0) in
-          let pra = prt + rbits + nb s + iceil (abs_float lx) + 64 in
+          let prt = slack + 40 + iceil (max 0.0 lt) in
+          let pra = prt + rbits + nb s + (if one_plus then iceil (max 0.0 (-. lx)) else 0) + 64 in
           let steps = if from_result then [ zi prt ] else schedule prt in
-          (if one_plus then check_ln1p else check_ln) (pos_of prt) (pos_of pra) (zi slack) from_result steps b p s e rs re fexact in
-      first_decided (List.map attempt [ (48, true); (48, false); (200, false); (800, false) ])
+          ((fun () -> (if one_plus then check_ln1p else check_ln) (pos_of prt) (pos_of pra) (zi slack) from_result steps b p s e rs re fexact),
+           (fun () -> (if one_plus then loose_ln1p else loose_ln) (pos_of prt) (pos_of pra) (zi slack) (schedule prt) b p s e rs re)) in
+      List.map attempt [ (48, true); (48, false); (200, false); (800, false) ]
   | "powi" ->
       let n = a2 in
       let an = Zar.abs n in
-      let exact_ok = Zar.numbits an < 40 && Zar.to_float an *. float_of_int (nb s + 1) < 6.0e6 in
-      let attempt mg () =
-        let pra = bits + mg + rbits + 4 * nb an + 64 in
-        check_powi (pos_of pra) exact_ok b p s e n rs re fexact in
-      first_decided (List.map attempt margins)
+      (* expanding s^|n| as an integer is only worth it while it stays small (I.fromZ is quadratic) *)
+      let exact_ok = Zar.equal (Zar.abs s) Zar.one || (Zar.numbits an < 40 && Zar.to_float an *. float_of_int (nb s) < 3.0e4) in
+      let attempt mg =
+        let pra = bits + mg + rbits + 4 * nb an + nb s + 64 in
+        ((fun () -> check_powi (pos_of pra) exact_ok b p s e n rs re fexact),
+         (fun () -> loose_powi (pos_of pra) b p s e n rs re)) in
+      List.map attempt margins
   | "powf" ->
       let ys = a2 and ye = a3 in
       let exact_ok =
         Zar.sign ye >= 0 && Zar.numbits ye < 8 &&
         (let y = Zar.abs (Zar.mul ys (Zar.pow b (Zar.to_int ye))) in
-         Zar.numbits y < 40 && Zar.to_float y *. float_of_int (nb s + 1) < 6.0e6) in
-      let attempt mg () =
+         Zar.equal (Zar.abs s) Zar.one || (Zar.numbits y < 40 && Zar.to_float y *. float_of_int (nb s) < 3.0e4)) in
+      let attempt mg =
         if Zar.sign s <= 0 || Zar.sign ys = 0 then
-          check_powf (pos_of 64) (pos_of (bits + mg + rbits + 64)) (zi 10) [] exact_ok b p s e ys ye rs re fexact
+          let pra = bits + mg + rbits + 64 in
+          ((fun () -> check_powf (pos_of 64) (pos_of pra) (zi 10) [] exact_ok b p s e ys ye rs re fexact),
+           (fun () -> VUndecided))
         else
           let lnx = aln b s e in
           let llnx = if lnx = 0.0 then 0.0 else log2f (abs_float lnx) in
           let lu = alog2 b ys ye +. llnx in
           let slack = bits + mg + iceil (max 0.0 lu) + iceil (max 0.0 (-. llnx)) + 8 in
-          let prt = slack + 40 + iceil (max 0.0 llnx) in
-          let pra = prt + rbits + nb s + nb ys + 64 in
-          check_powf (pos_of prt) (pos_of pra) (zi slack) (schedule prt) exact_ok b p s e ys ye rs re fexact in
-      ignore lr;
-      first_decided (List.map attempt margins)
+          (* a result next to 1: y ln x must be resolved against 1 *)
+          let prt = slack + 40 + iceil (max 0.0 llnx) + iceil (max 0.0 (-. lu)) in
+          let pra = prt + rbits + nb s + nb ys + 4 * nb (Zar.abs ye) + 64 in
+          ((fun () -> check_powf (pos_of prt) (pos_of pra) (zi slack) (schedule prt) exact_ok b p s e ys ye rs re fexact),
+           (fun () -> loose_powf (pos_of prt) (pos_of pra) (zi slack) (schedule prt) b p s e ys ye rs re)) in
+      List.map attempt margins
   | _ -> failwith ("op " ^ op)
 
 let flag_name = function NoOp -> "NoOp" | AddOne -> "AddOne" | SubOne -> "SubOne"
@@ -200,9 +212,16 @@ let judge op0 args got =
                  else fail ("exact-" ^ hx s' ^ "-" ^ hx e')
              | _ -> fail "panic-UnlimitedPrecision")
           else begin
-            match check_value op b p s e a2 a3 rs re fexact with
+            let att = attempts op b p s e a2 a3 rs re fexact in
+            let directed = (match m with MHalfEven | MHalfAway -> false | _ -> true) in
+            match first_decided (List.map fst att) with
             | VAccept -> pass ~nt ~extra:("cls=" ^ cls ^ fid) ()
-            | VReject -> { v = "fail"; extra = "not-within-1ulp-or-untruthful-Exact cls=" ^ cls ^ fid }
+            | VReject ->
+                (* open finding directed_faithful: directed modes, computed results, not flagged Exact;
+                   as-is accuracy: less than B ulps of the result *)
+                if directed && entry = ECompute && not fexact && first_decided (List.map snd att) = VAccept
+                then known "directed_faithful" ("within-1ulp cls=" ^ cls)
+                else { v = "fail"; extra = "not-within-1ulp-or-untruthful-Exact cls=" ^ cls ^ fid }
             | VUndecided -> skip ("undecided-" ^ cls)
           end
     | [ "panic"; c ] -> fail ("value-not-panic-" ^ c)
